@@ -1,10 +1,18 @@
 //! C01 / C02 — histories of 2..4 sessions driven single-threaded through the real
-//! `GrafeoDB::session()` API (direct calls and GQL / SPARQL statement templates).
+//! `GrafeoDB::session()` API (direct calls and GQL / Cypher / SPARQL statement templates).
+//!
+//! Statements and scan-based reads are issued through a randomly chosen entry point (`Via`):
+//! `Session::execute` (GQL), `execute_cypher`, `execute_with_params` (QueryProcessor path),
+//! `execute_gremlin` (`g.V()`, `g.V().count()`), and — outside a transaction — the
+//! `GrafeoDB::execute*` convenience calls.  The model has one op / read kind for all of them
+//! (they hand the same (viewing epoch, transaction) to the planner); the one entry point that does
+//! not, `GrafeoDB::execute_cypher_with_params`, is a read kind of its own (`FreshLabelScan`).
 //!
 //! One case = one history.  Every step's output is canonicalised (sorted lists) and printed as a Coq
 //! term of type `out` (coq/Mvcc/Model.v); the case's `coq` field is `chk_hist OPS OUTS`
-//! (model == implementation on the whole history).  The check derives the oracle terms
-//! (`c01_fails OPS OUTS`, `c02_fails OPS OUTS DUMPS`) from the same two lists; `msg` carries the dump
+//! (model == implementation on the whole history).  The check derives the evaluated terms
+//! (`c01_report OPS OUTS`, `c02_report OPS OUTS DUMPS`: correspondence, failing positions with their
+//! finding classes, class predicates) from the same two lists; `msg` carries the dump
 //! ranges of the history (`dumps=[(start,len,base);...]`).
 //!
 //!   --prop c01|c02     which generator mix to use (default c01)
@@ -1618,7 +1626,7 @@ fn main() {
                 }
                 _ => {
                     name = "random";
-                    let len = 4 + g.rng.below(if a.tier == "quick" { 30 } else { 36 }) as usize;
+                    let len = 4 + g.rng.below(if a.tier == "quick" { 37 } else { 57 }) as usize;
                     gen_random(&mut g, len);
                 }
             }
